@@ -854,6 +854,49 @@ fn worker_cfg(w: &mut WorkerCtx) {
             }
         }
     }
+    // candidates that cannot be resolved at all (an unset variable, a misplaced '~') in front of the directory
+    // that holds the name: such a candidate does not contain the name, the search goes on
+    if w.shard == 0 {
+        for (bi, backend) in [Backend::Memfs, Backend::Stdfs].into_iter().enumerate() {
+            let c0 = CfgCase { b: backend, h: 2, x: 0, d: 2, mask: 0, kind: 0 };
+            let l = layout(&cfg_area(&root, c0, &format!("u{}", bi)));
+            let envs: Vec<(&str, Vec<(&'static str, Option<String>)>)> = vec![
+                ("XDG_CONFIG_HOME names an unset variable", vec![("HOME", Some(l.home.clone())), ("XDG_CONFIG_HOME", Some("$RVMC_C18_UNSET/cfg".to_string())), ("XDG_CONFIG_DIRS", Some(l.cp.clone()))]),
+                ("XDG_CONFIG_DIRS starts with an entry holding a misplaced '~'", vec![("HOME", Some(l.home.clone())), ("XDG_CONFIG_HOME", Some(l.xch.clone())), ("XDG_CONFIG_DIRS", Some(format!("/rvmc~c18:{}", l.cp)))]),
+                ("XDG_CONFIG_DIRS starts with an entry naming an unset variable", vec![("HOME", Some(l.home.clone())), ("XDG_CONFIG_HOME", None), ("XDG_CONFIG_DIRS", Some(format!("${{RVMC_C18_UNSET}}/y:{}", l.cp)))]),
+            ];
+            for (what, env) in envs {
+                for (k, v) in &env {
+                    set_opt(k, v);
+                }
+                TICK.fetch_add(1, Ordering::Relaxed);
+                let got: Result<Option<PathBuf>, String> = match backend {
+                    Backend::Memfs => {
+                        let mem = Memfs::new();
+                        let _ = mem.mkdir_p(&l.cp);
+                        let _ = mem.write_all(Path::new(&l.cp).join(NAME), "x");
+                        catch_unwind(AssertUnwindSafe(|| mem.config_dir(NAME))).map_err(|e| panic_message(&e))
+                    },
+                    Backend::Stdfs => {
+                        crate::engines::sandbox::force_remove(&l.area);
+                        let _ = std::fs::create_dir_all(&l.cp);
+                        let _ = std::fs::write(Path::new(&l.cp).join(NAME), "x");
+                        catch_unwind(AssertUnwindSafe(|| Stdfs::new().config_dir(NAME))).map_err(|e| panic_message(&e))
+                    },
+                };
+                w.count("cfg_unresolvable_candidate_cases", 1);
+                let ok = matches!(&got, Ok(Some(p)) if p.as_path() == Path::new(&l.cp));
+                if !ok {
+                    let (g2, cp2) = (format!("{:?}", got), l.cp.clone());
+                    w.vio(
+                        &format!("vfs.config_dir({:?}) gives up at a candidate that cannot be resolved", backend),
+                        move || format!("{}: only {} holds the name, config_dir returned {}", what, cp2, g2),
+                        || J::obj([("part", J::s("config_dir-unresolvable-candidate"))]),
+                    );
+                }
+            }
+        }
+    }
     let _ = std::env::set_current_dir("/");
 }
 
@@ -1254,6 +1297,8 @@ fn replay(ctx: &Ctx, p: &std::path::Path, sb: &Sandbox) -> i32 {
             let l = layout(&area);
             launch(ctx, 1, vec!["cfg1".into(), area, idx.to_string(), "replay".into()], to_env(&l.env(c.h, c.x, c.d)))
         },
+        // (re-runs the whole config_dir worker: the probe is part of it)
+        "config_dir-unresolvable-candidate" => launch(ctx, 1, vec!["cfg".into(), sb.root.clone()], vec![]),
         _ => {
             eprintln!("machinery: unknown replay part {:?}", part);
             return 2;
